@@ -216,6 +216,7 @@ FdeOffWith(head, cieb)    == 4 + Len(head) + Len(cieb)
 FdeInsOffWith(head, cfg, cieb) == FdeOffWith(head, cieb) + 4 + 4 + 2 * cfg.asz
 
 EncCie(cfg, cie) == LET b == CieBody(cfg) \o EncProg(cie, cfg.asz, cfg.le) IN U32(Len(b), cfg.le) \o b
+EncFde(cfg, cieoff, fde) == LET b == FdeHead(cfg, cieoff) \o EncProg(fde, cfg.asz, cfg.le) IN U32(Len(b), cfg.le) \o b
 FdeOff(cfg, cie)    == FdeOffWith(CieBody(cfg), EncProg(cie, cfg.asz, cfg.le))
 FdeInsOff(cfg, cie) == FdeOff(cfg, cie) + 4 + 4 + 2 * cfg.asz
 EncSection(cfg, cie, fde) == SectionWith(CieBody(cfg), cfg, EncProg(cie, cfg.asz, cfg.le), EncProg(fde, cfg.asz, cfg.le))
